@@ -238,21 +238,24 @@ def valueLabels {α} (f : OField α) (extend : Bool) : M String :=
     | none => .error .type
     | some vs => .ok (String.ofList (joinSp (vs.map fun c => "field_".toList ++ c.toList)))
 
-def axn (a : Nat) : String := ["x", "y", "z"].getD a ""
-
 def headerLines {α} (f : OField α) (extend : Bool) (labels : String) (rw : List String) : List HLine :=
   [.other, .kv "Segment count" (.nat 1), .other, .kv "Begin" (.str "Segment"),
    .kv "Begin" (.str "Header"), .other, .kv "Title" (.str "Field"),
    .kv "Desc" (.str "File generated by Field class"),
-   .kv "meshunit" (.str (f.mesh.region.units.getD 0 "")), .kv "meshtype" (.str "rectangular")]
-  ++ tab 3 (fun a => .kv (axn a ++ "base") (.num (f.mesh.region.lo a + f.mesh.cellAt a / 2)))
-  ++ tab 3 (fun a => .kv (axn a ++ "nodes") (.nat (f.mesh.nAt a)))
-  ++ tab 3 (fun a => .kv (axn a ++ "stepsize") (.num (f.mesh.cellAt a)))
-  ++ tab 3 (fun a => .kv (axn a ++ "min") (.num (f.mesh.region.lo a)))
-  ++ tab 3 (fun a => .kv (axn a ++ "max") (.num (f.mesh.region.hi a)))
-  ++ [.kv "valuedim" (.nat (writeDim f extend)), .kv "valuelabels" (.str labels),
-      .kv "valueunits" (.str (valueUnits f extend)), .other, .kv "End" (.str "Header"), .other,
-      .beginData rw]
+   .kv "meshunit" (.str (f.mesh.region.units.getD 0 "")), .kv "meshtype" (.str "rectangular"),
+   .kv "xbase" (.num (f.mesh.region.lo 0 + f.mesh.cellAt 0 / 2)),
+   .kv "ybase" (.num (f.mesh.region.lo 1 + f.mesh.cellAt 1 / 2)),
+   .kv "zbase" (.num (f.mesh.region.lo 2 + f.mesh.cellAt 2 / 2)),
+   .kv "xnodes" (.nat (f.mesh.nAt 0)), .kv "ynodes" (.nat (f.mesh.nAt 1)), .kv "znodes" (.nat (f.mesh.nAt 2)),
+   .kv "xstepsize" (.num (f.mesh.cellAt 0)), .kv "ystepsize" (.num (f.mesh.cellAt 1)),
+   .kv "zstepsize" (.num (f.mesh.cellAt 2)),
+   .kv "xmin" (.num (f.mesh.region.lo 0)), .kv "ymin" (.num (f.mesh.region.lo 1)),
+   .kv "zmin" (.num (f.mesh.region.lo 2)),
+   .kv "xmax" (.num (f.mesh.region.hi 0)), .kv "ymax" (.num (f.mesh.region.hi 1)),
+   .kv "zmax" (.num (f.mesh.region.hi 2)),
+   .kv "valuedim" (.nat (writeDim f extend)), .kv "valuelabels" (.str labels),
+   .kv "valueunits" (.str (valueUnits f extend)), .other, .kv "End" (.str "Header"), .other,
+   .beginData rw]
 
 /-- `self.array.transpose((2, 1, 0, 3)).flat` -/
 def flatPayload {α} (f : OField α) : List α := (f.arr.transpose [2, 1, 0, 3]).toList
@@ -347,19 +350,19 @@ def HVal.show : HVal → String
 
 def hnum (h : List (String × HVal)) (k : String) : M Rat := hget h k >>= HVal.toNum
 def hnat (h : List (String × HVal)) (k : String) : M Nat := hget h k >>= HVal.toNat
-def hnums (h : List (String × HVal)) (suffix : String) : M (List Rat) :=
-  (["x", "y", "z"]).mapM fun a => hnum h (a ++ suffix)
-def hnats (h : List (String × HVal)) (suffix : String) : M (List Nat) :=
-  (["x", "y", "z"]).mapM fun a => hnat h (a ++ suffix)
+def hnums (h : List (String × HVal)) (kx ky kz : String) : M (List Rat) :=
+  hnum h kx >>= fun x => hnum h ky >>= fun y => hnum h kz >>= fun z => .ok [x, y, z]
+def hnats (h : List (String × HVal)) (kx ky kz : String) : M (List Nat) :=
+  hnat h kx >>= fun x => hnat h ky >>= fun y => hnat h kz >>= fun z => .ok [x, y, z]
 
 /-- mesh of the file: `Region(p1, p2, units=[meshunit]*3)`, `Mesh(region, cell=stepsize)` -/
-def readMesh (h : List (String × HVal)) : M Mesh := do
-  let p1 ← hnums h "min"
-  let p2 ← hnums h "max"
-  let cell ← hnums h "stepsize"
-  let mu ← hget h "meshunit"
+def readMesh (h : List (String × HVal)) : M Mesh :=
+  hnums h "xmin" "ymin" "zmin" >>= fun p1 =>
+  hnums h "xmax" "ymax" "zmax" >>= fun p2 =>
+  hnums h "xstepsize" "ystepsize" "zstepsize" >>= fun cell =>
+  hget h "meshunit" >>= fun mu =>
   -- the mesh unit is used as text whatever it looks like
-  let r ← Region.mk? p1 p2 none (some (List.replicate 3 mu.show))
+  Region.mk? p1 p2 none (some [mu.show, mu.show, mu.show]) >>= fun r =>
   Mesh.mkCell? r cell
 
 /-- `np.fromfile(f, count, dtype)`: as many whole items as there are, at most `count` -/
@@ -463,7 +466,7 @@ def parse {α} [DecidableEq α] (c : Codec α) (F : OvfFile α) : M (Parsed α) 
         match readMesh h with
         | .error e => .error e
         | .ok mesh =>
-          match hnats h "nodes" with
+          match hnats h "xnodes" "ynodes" "znodes" with
           | .error e => .error e
           | .ok nodes =>
             match readBody c (isV2 F.first) ws F.body (natProd nodes) vd with
@@ -522,18 +525,24 @@ structure Content (α : Type) where
   meshunit : String
   values : List α
 
+/-- lower / upper face of the mesh of a content along axis `a` -/
+def Content.lo {α} (x : Content α) (a : Nat) : Rat := x.base.getD a 0 - x.step.getD a 0 / 2
+def Content.hi {α} (x : Content α) (a : Nat) : Rat :=
+  x.base.getD a 0 - x.step.getD a 0 / 2 + (x.nodes.getD a 0 : Rat) * x.step.getD a 0
+
 /-- OVF 1.0 (`v2 = false`: big endian, three components, no `valuedim`) or 2.0 writer -/
 def refWriter {α} (c : Codec α) (v2 : Bool) (w : Nat) (x : Content α) : OvfFile α :=
   { first := if v2 then "# OOMMF OVF 2.0" else "# OOMMF: rectangular mesh v1.0",
     lines :=
       [.kv "Segment count" (.nat 1), .kv "Begin" (.str "Segment"), .kv "Begin" (.str "Header"),
-       .kv "Title" (.str "ref"), .kv "meshtype" (.str "rectangular"), .kv "meshunit" (.str x.meshunit)]
-      ++ tab 3 (fun a => .kv (axn a ++ "base") (.num (x.base.getD a 0)))
-      ++ tab 3 (fun a => .kv (axn a ++ "stepsize") (.num (x.step.getD a 0)))
-      ++ tab 3 (fun a => .kv (axn a ++ "nodes") (.nat (x.nodes.getD a 0)))
-      ++ tab 3 (fun a => .kv (axn a ++ "min") (.num (x.base.getD a 0 - x.step.getD a 0 / 2)))
-      ++ tab 3 (fun a => .kv (axn a ++ "max")
-            (.num (x.base.getD a 0 - x.step.getD a 0 / 2 + (x.nodes.getD a 0 : Rat) * x.step.getD a 0)))
+       .kv "Title" (.str "ref"), .kv "meshtype" (.str "rectangular"), .kv "meshunit" (.str x.meshunit),
+       .kv "xbase" (.num (x.base.getD 0 0)), .kv "ybase" (.num (x.base.getD 1 0)), .kv "zbase" (.num (x.base.getD 2 0)),
+       .kv "xstepsize" (.num (x.step.getD 0 0)), .kv "ystepsize" (.num (x.step.getD 1 0)),
+       .kv "zstepsize" (.num (x.step.getD 2 0)),
+       .kv "xnodes" (.nat (x.nodes.getD 0 0)), .kv "ynodes" (.nat (x.nodes.getD 1 0)),
+       .kv "znodes" (.nat (x.nodes.getD 2 0)),
+       .kv "xmin" (.num (x.lo 0)), .kv "ymin" (.num (x.lo 1)), .kv "zmin" (.num (x.lo 2)),
+       .kv "xmax" (.num (x.hi 0)), .kv "ymax" (.num (x.hi 1)), .kv "zmax" (.num (x.hi 2))]
       ++ (if v2 then [.kv "valuedim" (.nat x.vd)] else [.kv "valueunit" (.str "A/m"), .kv "valuemultiplier" (.nat 1)])
       ++ [.kv "End" (.str "Header"),
           .beginData (if w = 0 then ["Text"] else ["Binary", toString w])],
@@ -567,9 +576,9 @@ def refReader {α} [DecidableEq α] (c : Codec α) (F : OvfFile α) : M (Content
   match scan F.lines [] with
   | none => .error .runtime
   | some (h, ws) =>
-    hnums h "base" >>= fun base =>
-    hnums h "stepsize" >>= fun step =>
-    hnats h "nodes" >>= fun nodes =>
+    hnums h "xbase" "ybase" "zbase" >>= fun base =>
+    hnums h "xstepsize" "ystepsize" "zstepsize" >>= fun step =>
+    hnats h "xnodes" "ynodes" "znodes" >>= fun nodes =>
     hnat h "valuedim" >>= fun vd =>
     (hget h "meshunit" >>= HVal.text) >>= fun mu =>
     refReaderBody c F ws base step nodes vd mu
